@@ -24,7 +24,22 @@ package parser
 //@ loop 2 invariant typeis(record, *klog.record) && typeis(block, *txt.block) && implies(len(lines) > 0, indentator != nil)
 //@ loop 2 decreases len(lines)
 
+// The headline closure: called once, while `lines` still holds all significant lines.
+//@ func parse$2
+//@ requires typeis(block, *txt.block) && initialLineOffset >= 0 && initialLineCount >= 1 && initialLineOffset + initialLineCount <= len(block.(*txt.block).lines)
+//@ requires len(lines) == initialLineCount && same(lines, block.(*txt.block).lines[initialLineOffset : initialLineOffset + initialLineCount])
+//@ ensures isnil(result) || (typeis(result, *klog.record) && fresh(result))
+//@ ensures len(errs) >= old(len(errs)) && implies(isnil(result), len(errs) > old(len(errs)))
+
+// The entry-summary closure: consumes the following lines that belong to a multi-line entry summary.
 //@ func parse$4
+//@ requires typeis(block, *txt.block) && indentator != nil && entry != nil && entry.PointerPosition >= 0
+//@ requires initialLineOffset >= 0 && initialLineCount >= 1 && initialLineOffset + initialLineCount <= len(block.(*txt.block).lines)
+//@ requires 0 <= len(lines) && len(lines) <= initialLineCount - 1 && same(lines, block.(*txt.block).lines[initialLineOffset + initialLineCount - len(lines) : initialLineOffset + initialLineCount])
+//@ modifies entry.PointerPosition
+//@ ensures entry.PointerPosition >= old(entry.PointerPosition) && entry.PointerPosition <= max(old(entry.PointerPosition), len(entry.Chars))
+//@ ensures 0 <= len(lines) && len(lines) <= old(len(lines)) && same(lines, block.(*txt.block).lines[initialLineOffset + initialLineCount - len(lines) : initialLineOffset + initialLineCount])
+//@ ensures implies(nonnil(result1), typeis(result1, *txt.err))
 //@ loop 1 invariant 0 <= len(lines) && len(lines) <= old(len(lines))
 //@ loop 1 invariant same(lines, block.(*txt.block).lines[initialLineOffset + initialLineCount - len(lines) : initialLineOffset + initialLineCount])
 //@ loop 1 invariant typeis(block, *txt.block) && indentator != nil
